@@ -16,7 +16,7 @@ ASSUMPTIONS = [
     "tolerances: lengths K(eps*length + 7.06*eps*L) with K=4 and L=max(rectifying radius, local rho, local nu), i.e. 4 x the documented "
     "'about 10 nm' on WGS84 plus relative round-off; azimuth weighted by course length; areas 16*eps*max(a^2,c^2)*|lam12|; direct results "
     "judged with the first-order condition number of longitude/area with respect to the permitted meridian-distance error (courses "
-    "spiralling towards a pole); series variant x2 for 1/150 < |f| <= 0.01 (6th-order truncation); exact variant on oblate ellipsoids "
+    "spiralling towards a pole), relative term x2 for courses longer than one circuit; series variant x2 for 1/150 < |f| <= 0.01 (6th-order truncation); exact variant on oblate ellipsoids "
     "x max(1, (a/b)^2/2) (cancellation in the defining expression of psi)",
     "documented pole convention taken from the behaviour the repository's own tests pin down (pole end point: azi12 = 0/180, "
     "S12 = +-c^2 lam12), not from the stale 'cos(lat) = 1/eps^2' sentence of Rhumb.hpp",
